@@ -723,7 +723,7 @@ theorem collectGo_raise (nd : NodeD) (rs : List RunOut) (acc : AL (List Val)) (r
 theorem collectAsLists_ok (nd : NodeD) (results : List RunOut)
     (h : nd.errMode = .cont ∨ ∀ r ∈ results, (r.status == .failed) = false) :
     collectAsLists nd results
-      = .ok (nd.outputs.map fun o => (o, Val.mkLst (results.map fun r => collectEntry nd r o))) := by
+      = .ok ((collectNames nd).map fun o => (o, Val.mkLst (results.map fun r => collectEntry nd r o))) := by
   unfold collectAsLists
   rw [collectGo_ok nd results _ h]
   simp [List.map_map, Function.comp_def]
